@@ -34,7 +34,8 @@ type RdbReplay struct {
 
 func (rr *RdbReplay) Replay(e *rdb.BinEntry) (err error) {
 	var ttlms uint64
-	if rr.ReplaceHashTag {
+	if rr.ReplaceHashTag && e.FirstBin() {
+		// a continuation chunk of a split value already carries the key of its first chunk
 		e.Key = bytes.Replace(e.Key, []byte("{"), []byte(""), 1)
 		e.Key = bytes.Replace(e.Key, []byte("}"), []byte(""), 1)
 	}
@@ -192,6 +193,9 @@ func restoreBigRdbEntry(cli client.Redis, e *rdb.BinEntry) (err error) {
 
 	count := 0
 	e.ObjectParser.ExecCmd(func(cmd string, args ...interface{}) error {
+		// the parser carries the key as it is in the snapshot : the value has to be written
+		// to the entry's key, which is the one the key-exists policy and the expiry address
+		args = nativeCommandWithKey(cmd, args, e.Key)
 		err = cli.Send(cmd, args...)
 		if err != nil {
 			return err
@@ -207,6 +211,22 @@ func restoreBigRdbEntry(cli client.Redis, e *rdb.BinEntry) (err error) {
 		return nil
 	})
 	return flushAndCheckReply(cli, count)
+}
+
+// nativeCommandWithKey returns the arguments of a native command that rdb.Parser.ExecCmd
+// produced for a keyed value, addressed to the given key.
+func nativeCommandWithKey(cmd string, args []interface{}, key []byte) []interface{} {
+	idx := 0
+	if strings.EqualFold(cmd, "xgroup") {
+		idx = 1 // XGROUP CREATE key group id ...
+	}
+	if idx >= len(args) {
+		return args
+	}
+	res := make([]interface{}, len(args))
+	copy(res, args)
+	res[idx] = key
+	return res
 }
 
 func flushAndCheckReply(cli client.Redis, count int) error {
